@@ -153,6 +153,11 @@ def search(rec, ctx):
     for s in corp:
         check(rec, {"src": s, "mode": "exec", "stream": "corpus"})
 
+    from ..gen import lex
+
+    for s in ctx.shard(list(lex.string_concat_matrix())):
+        check(rec, {"src": "x = " + s + "\n", "mode": "exec", "stream": "string-concat-matrix"})
+
     seeds_for_layout = list(corp)
 
     def g1(rnd):
